@@ -2,7 +2,7 @@
 # tools/seedcheck.sh <property id> <dir with patch.diff> [tier]
 # Applies a seeded change to /repo, runs the property's check, and undoes the change straight afterwards.
 set -u
-PID="$1"; DIR="$2"; TIER="${3:-quick}"
+PID="$1"; DIR="$(cd "$2" && pwd)"; TIER="${3:-quick}"
 cd /verif
 if ! git -C /repo diff --quiet; then echo "refusing: /repo has uncommitted changes"; exit 2; fi
 if ! git -C /repo apply --check "$DIR/patch.diff" 2>/dev/null; then
